@@ -39,6 +39,7 @@ class Exec(StmtMixin, CallMixin):
             self.consts = extract.module_constants(finfo.modname)
             self.imports = extract.module_imports(finfo.modname)
         self._uf_cache = {}
+        self._keep = []
         self._quick = z3.Solver()
         self._quick.set("timeout", 150)
         self.loop_ordinals = {}
